@@ -337,7 +337,16 @@ func (rpc *RPC) LogValue() slog.Value {
 // further (e.g. Message data is bigger than the RPC limit), then it will be
 // returned as an oversized RPC. The caller should filter out oversized RPCs.
 func (rpc *RPC) split(limit int) iter.Seq[RPC] {
-	return func(yield func(RPC) bool) {
+	return func(yieldAny func(RPC) bool) {
+		// Never hand out an RPC that carries nothing (this would happen when
+		// the first element of a group is itself larger than the limit).
+		yield := func(r RPC) bool {
+			if r.carriesNothing() {
+				return true
+			}
+			return yieldAny(r)
+		}
+
 		nextRPC := RPC{from: rpc.from}
 
 		{
@@ -420,6 +429,17 @@ func (rpc *RPC) split(limit int) iter.Seq[RPC] {
 				}
 			}
 
+			// The extensions control message goes with the first control fragment.
+			if ext := ctl.GetExtensions(); ext != nil {
+				if nextRPC.Control.Extensions = ext; nextRPC.Size() > limit {
+					nextRPC.Control.Extensions = nil
+					if !yield(nextRPC) {
+						return
+					}
+					nextRPC = RPC{RPC: pb.RPC{Control: &pb.ControlMessage{Extensions: ext}}, from: rpc.from}
+				}
+			}
+
 			for _, graft := range ctl.GetGraft() {
 				if nextRPC.Control.Graft = append(nextRPC.Control.Graft, graft); nextRPC.Size() > limit {
 					nextRPC.Control.Graft = nextRPC.Control.Graft[:len(nextRPC.Control.Graft)-1]
@@ -499,6 +519,54 @@ func (rpc *RPC) split(limit int) iter.Seq[RPC] {
 					}
 				}
 			}
+
+			for _, idontwant := range ctl.GetIdontwant() {
+				if len(nextRPC.Control.Idontwant) == 0 {
+					// As with IWANTs, a single IDONTWANT per RPC is enough,
+					// since there are no topic IDs here.
+					newIDontWant := &pb.ControlIDontWant{}
+					if nextRPC.Control.Idontwant = append(nextRPC.Control.Idontwant, newIDontWant); nextRPC.Size() > limit {
+						nextRPC.Control.Idontwant = nextRPC.Control.Idontwant[:len(nextRPC.Control.Idontwant)-1]
+						if !yield(nextRPC) {
+							return
+						}
+						nextRPC = RPC{RPC: pb.RPC{Control: &pb.ControlMessage{
+							Idontwant: []*pb.ControlIDontWant{newIDontWant},
+						}}, from: rpc.from}
+					}
+				}
+				for _, msgID := range idontwant.GetMessageIDs() {
+					if nextRPC.Control.Idontwant[0].MessageIDs = append(nextRPC.Control.Idontwant[0].MessageIDs, msgID); nextRPC.Size() > limit {
+						nextRPC.Control.Idontwant[0].MessageIDs = nextRPC.Control.Idontwant[0].MessageIDs[:len(nextRPC.Control.Idontwant[0].MessageIDs)-1]
+						if !yield(nextRPC) {
+							return
+						}
+						nextRPC = RPC{RPC: pb.RPC{Control: &pb.ControlMessage{
+							Idontwant: []*pb.ControlIDontWant{{MessageIDs: []string{msgID}}},
+						}}, from: rpc.from}
+					}
+				}
+			}
+		}
+
+		// Extension payloads are indivisible
+		if rpc.Partial != nil {
+			if nextRPC.Partial = rpc.Partial; nextRPC.Size() > limit {
+				nextRPC.Partial = nil
+				if !yield(nextRPC) {
+					return
+				}
+				nextRPC = RPC{RPC: pb.RPC{Partial: rpc.Partial}, from: rpc.from}
+			}
+		}
+		if rpc.TestExtension != nil {
+			if nextRPC.TestExtension = rpc.TestExtension; nextRPC.Size() > limit {
+				nextRPC.TestExtension = nil
+				if !yield(nextRPC) {
+					return
+				}
+				nextRPC = RPC{RPC: pb.RPC{TestExtension: rpc.TestExtension}, from: rpc.from}
+			}
 		}
 
 		if nextRPC.Size() > 0 {
@@ -507,6 +575,37 @@ func (rpc *RPC) split(limit int) iter.Seq[RPC] {
 			}
 		}
 	}
+}
+
+// carriesNothing reports whether the RPC has no content besides empty
+// containers (e.g. a control message, or an IHAVE naming only a topic).
+func (rpc *RPC) carriesNothing() bool {
+	if len(rpc.Publish) > 0 || len(rpc.Subscriptions) > 0 || rpc.Partial != nil || rpc.TestExtension != nil {
+		return false
+	}
+	ctl := rpc.Control
+	if ctl == nil {
+		return true
+	}
+	if len(ctl.Graft) > 0 || len(ctl.Prune) > 0 || ctl.Extensions != nil {
+		return false
+	}
+	for _, ihave := range ctl.Ihave {
+		if len(ihave.MessageIDs) > 0 {
+			return false
+		}
+	}
+	for _, iwant := range ctl.Iwant {
+		if len(iwant.MessageIDs) > 0 {
+			return false
+		}
+	}
+	for _, idontwant := range ctl.Idontwant {
+		if len(idontwant.MessageIDs) > 0 {
+			return false
+		}
+	}
+	return true
 }
 
 // pbFieldNumberLT15Size is the number of bytes required to encode a protobuf
